@@ -398,6 +398,8 @@ pub fn run(ctx: &Ctx) -> Report {
     for (h, bound) in sharnesses(ctx.tier) {
         let (stats, outcomes, viols) = sched::explore(bound, |p| sched_exec(&h, p), &|| ctx.over_cap());
         rep.add("schedules_executed", stats.schedules);
+        rep.add("schedules_reexecuted_for_determinism", stats.reexecuted);
+        rep.add("schedule_reexecutions_diverged", stats.diverged);
         rep.add("distinct_schedule_outcomes", outcomes.len() as u64);
         complete &= stats.complete;
         notes.push(format!("{}: schedules={} preemption bound {} (by preemptions {:?}) max points {} distinct outcomes {}", h.describe(), stats.schedules, bound, stats.by_preemptions, stats.max_points, outcomes.len()));
